@@ -1,6 +1,6 @@
 (* Percolator/ProofsTrace0.v — the part of the state the trace predicates depend on ([view]) and an
    explicit description [vstep] of what an accepted step checks and does on it. *)
-From Verif Require Import Percolator.Event Percolator.System.
+From Verif Require Import Percolator.Event Percolator.System Percolator.Trace.
 
 Record view := { v_tso : N; v_sent : list event; v_dlv : list event; v_cl : list (N * crec);
                  v_cts : list event; v_csl : list event; v_seen : list (N * N * N); v_gc : list (N * N) }.
@@ -17,20 +17,25 @@ Definition vcsl v x := {| v_tso := v_tso v; v_sent := v_sent v; v_dlv := v_dlv v
 Definition vseen v x := {| v_tso := v_tso v; v_sent := v_sent v; v_dlv := v_dlv v; v_cl := v_cl v; v_cts := v_cts v; v_csl := v_csl v; v_seen := x :: v_seen v; v_gc := v_gc v |}.
 Definition vgc v x := {| v_tso := v_tso v; v_sent := v_sent v; v_dlv := v_dlv v; v_cl := v_cl v; v_cts := v_cts v; v_csl := v_csl v; v_seen := v_seen v; v_gc := x |}.
 
-Definition pw_send_rec (c : crec) (async onepc : bool) : crec :=
-  let c := incn c FPwSent in
+Definition pw_send_rec (c : crec) (ks : list N) (async onepc : bool) : crec :=
+  let c := add_kl (incn c FPwSent) KSent ks in
   let c := if async then setn c FTriedA 1 else setn c FFb 1 in
   if onepc then setn c FTried1 1 else setn c FFb1 1.
+(* a record update that leaves everything the history invariant reads unchanged (deliveries only
+   touch the per-key delivery accounting, the ghost [c_lam] and the flag FStFb) *)
+Definition dlv_same (c c' : crec) : Prop :=
+  (forall f, f <> FStFb -> cn c' f = cn c f) /\ c_lm c' = c_lm c /\ c_pwok c' = c_pwok c /\
+  (forall k, kcnt c' KSent k = kcnt c KSent k) /\ (forall k, kcnt c' KNeg k = kcnt c KNeg k).
 Definition pw_reply_rec (c0 : crec) (ks : list N) (x : pw_res) : crec :=
-  let c := incn c0 FPwRep in
+  let c := add_kl (incn c0 FPwRep) KRep ks in
   match x with
   | PwOk m o =>
       let c := add_pwok c ks in
-      let c := setn c FMinc (N.max (cn c FMinc) m) in
-      let c := if o =? 0 then setn (setn c FFb1 1) (if fb c FTried1 then FFb else FFb1) 1 else setn c F1pcTs o in
+      let c := setn c FMinc (N.max (cn c0 FMinc) m) in
+      let c := if o =? 0 then setn (setn c FFb1 1) (if fb c0 FTried1 then FFb else FFb1) 1 else setn c F1pcTs o in
       if m =? 0 then setn c FFb 1 else c
-  | PwErr _ => setn c FPwErr 1
-  | PwRegion => c
+  | PwErr _ => setn (add_kl c KNeg ks) FPwErr 1
+  | PwRegion => add_kl c KNeg ks
   end.
 Definition cm_reply_rec (c : crec) (C : N) (x : cm_res) : crec :=
   match x with
@@ -41,8 +46,8 @@ Definition cm_reply_rec (c : crec) (C : N) (x : cm_res) : crec :=
 Definition told_guard (c : crec) (t : told_res) : bool :=
   match t with
   | TOk => negb (cn c FPcOk =? 0) || negb (cn c F1pcTs =? 0) ||
-           (async_kept c && fb c FHasm && subset (c_lm c) (c_pwok c))
-  | TErr => true
+           (async_kept c && fb c FHasm && subset (c_lm c) (c_pwok c) && pw_closed c)
+  | TErr => neg_ok c && (negb (commit_point_pw c) || err_ok c) && (cn c F1pcTs =? 0)
   | TUndet => (cn c FPcRep <? cn c FPcSent) || (commit_point_pw c && (cn c FPwRep <? cn c FPwSent))
   end.
 Definition told_rec (c : crec) (t : told_res) : crec :=
@@ -57,7 +62,8 @@ Definition expire_ok (v : view) (r T : N) : Prop :=
 Definition rs_just (v : view) (r T C : N) : Prop :=
   (C <> 0 /\ exists p, In (ECtsReply r T p (StCommitted C)) (v_cts v)) \/
   (C = 0 /\ exists p, In (ECtsReply r T p StRolledBack) (v_cts v)) \/
-  (exists ks, In (ECslReply r T ks (CslCommit C)) (v_csl v)) \/
+  ((exists ks, In (ECslReply r T ks (CslCommit C)) (v_csl v)) /\
+   (exists p ttl m secs, In (ECtsReply r T p (StLocked ttl m true secs)) (v_cts v))) \/
   (exists p ttl m secs, In (ECtsReply r T p (StLocked ttl m true secs)) (v_cts v) /\ m <= C /\
      forall k, In k secs ->
        exists ks l m', In (ECslReply r T ks (CslLocks l)) (v_csl v) /\ In (k, m') l /\ m' <= C).
@@ -69,16 +75,19 @@ Definition vstep (v : view) (e : event) (v' : view) : Prop :=
       v' = vcl v T (setn (setn (setn (vgetc v T) FCalled 1) FCausal (if cz then 1 else 0)) FWm (v_tso v))
   | EMutations T p ms =>
       let c := vgetc v T in
-      fb c FHasm = false /\ cn c FPwSent = 0 /\ cn c FPcSent = 0 /\
+      fb c FHasm = false /\ cn c FPwSent = 0 /\ cn c FPcSent = 0 /\ In p (lock_keys ms) /\
       v' = vcl v T (set_muts (setn (setn c FHasm 1) FPrim p) (lock_keys ms) (map fst ms))
-  | EPwSend r T p ks a o m f secs => v' = vcl (vsent v e) T (pw_send_rec (vgetc v T) a o)
-  | EPwDeliver r T ks x => v' = vdlv v (EPwReply r T ks x)
-  | EPwReply r T ks x => v' = vcl v T (pw_reply_rec (vgetc v T) ks x)
+  | EPwSend r T p ks a o m f secs => v' = vcl (vsent v e) T (pw_send_rec (vgetc v T) ks a o)
+  | EPwDeliver r T ks x =>
+      (exists p a o m f secs, In (EPwSend r T p ks a o m f secs) (v_sent v)) /\
+      exists c', dlv_same (vgetc v T) c' /\ v' = vcl (vdlv v (EPwReply r T ks x)) T c'
+  | EPwReply r T ks x => In e (v_dlv v) /\ v' = vcl v T (pw_reply_rec (vgetc v T) ks x)
   | ECmSend r T C ks =>
       let c := vgetc v T in
       fb c FDead = false /\
       if fb c FHasm then
         subset (c_lm c) (c_pwok c) = true /\ T < C /\ cn c FMinc <= C /\
+        (negb (async_kept c) || (C =? cn c FMinc)) = true /\
         (negb (fb c FCalled) || fb c FCausal || (cn c FWm <? C)) = true /\
         if mem (cn c FPrim) ks then v' = vcl (vsent v e) T (incn c FPcSent)
         else ((cn c FPcOk =? C) || async_kept c) = true /\ v' = vsent v e
@@ -92,7 +101,8 @@ Definition vstep (v : view) (e : event) (v' : view) : Prop :=
       In e (v_dlv v) /\
       let c := vgetc v T in
       if has_prim c ks then v' = vcl v T (cm_reply_rec c C x) else v' = v
-  | ERbSend r T ks => neg_ok (vgetc v T) = true /\ v' = vcl (vsent v e) T (setn (vgetc v T) FDead 1)
+  | ERbSend r T ks =>
+      (neg_ok (vgetc v T) && (negb (commit_point_pw (vgetc v T)) || err_ok (vgetc v T))) = true /\ v' = vcl (vsent v e) T (setn (vgetc v T) FDead 1)
   | ERbDeliver r T ks x => v' = vdlv v (ERbReply r T ks x)
   | EPlSend r T p f ks =>
       let c := vgetc v T in
@@ -102,9 +112,11 @@ Definition vstep (v : view) (e : event) (v' : view) : Prop :=
   | EPrDeliver r T f ks x => v' = vdlv v (EPrReply r T f ks x)
   | ECtsSend r T p caller cur rbine fo rp =>
       (cur = maxts \/ rbine = true -> expire_ok v r T) /\ v' = vsent v e
-  | ECtsDeliver r T p st => v' = vdlv v (ECtsReply r T p st)
+  | ECtsDeliver r T p st =>
+      exists c', dlv_same (vgetc v T) c' /\
+        (v' = vdlv v (ECtsReply r T p st) \/ v' = vcl (vdlv v (ECtsReply r T p st)) T c')
   | ECtsReply _ _ _ _ => v' = vcts v e
-  | ECslSend _ _ _ => v' = vsent v e
+  | ECslSend r T ks => async_cts (v_cts v) r T ks = true /\ v' = vsent v e
   | ECslDeliver r T ks st => v' = vdlv v (ECslReply r T ks st)
   | ECslReply _ _ _ _ => v' = vcsl v e
   | ERsSend r T C ks => rs_just v r T C /\ v' = vsent v e
@@ -118,6 +130,39 @@ Definition vstep (v : view) (e : event) (v' : view) : Prop :=
   | EBegin _ _ | ERbReply _ _ _ _ | EPlReply _ _ _ _ _ | EPrReply _ _ _ _ _ | ERsReply _ _ _ _ _
   | EHbDeliver _ _ _ _ _ | ECrash _ => v' = v
   end.
+
+(* ---- per-key accounting ---- *)
+Lemma kcnt_l_add_same tag k ks l :
+  kcnt_l tag k (map (fun k' => (tag, k')) ks ++ l) = N.of_nat (occ k ks) + kcnt_l tag k l.
+Proof.
+  induction ks as [|x ks IH]; [reflexivity|].
+  cbn [map app kcnt_l occ]. rewrite IH, N.eqb_refl. cbn [andb]. destruct (x =? k); lia.
+Qed.
+Lemma kcnt_l_add_other tag tag' k ks l :
+  (tag' =? tag) = false -> kcnt_l tag k (map (fun k' => (tag', k')) ks ++ l) = kcnt_l tag k l.
+Proof.
+  intros E. induction ks as [|x ks IH]; [reflexivity|].
+  cbn [map app kcnt_l]. rewrite IH, E. reflexivity.
+Qed.
+Lemma dlv_same_refl c : dlv_same c c.
+Proof. repeat split. Qed.
+Lemma dlv_same_stfb c v : dlv_same c (setn c FStFb v).
+Proof.
+  split; [| repeat split]. intros f Hf. cbn [cn setn]. destruct f; try reflexivity. exfalso. apply Hf. reflexivity.
+Qed.
+Lemma dlv_same_trans a b c : dlv_same a b -> dlv_same b c -> dlv_same a c.
+Proof.
+  intros (A1 & A2 & A3 & A4 & A5) (B1 & B2 & B3 & B4 & B5).
+  split; [intros f Hf; rewrite B1, A1; auto|]. split; [congruence|]. split; [congruence|].
+  split; intros k; [rewrite B4 | rewrite B5]; auto.
+Qed.
+Lemma dlv_same_kl c tag ks : (tag =? KSent) = false -> (tag =? KNeg) = false -> dlv_same c (add_kl c tag ks).
+Proof.
+  intros E1 E2. split; [reflexivity|]. split; [reflexivity|]. split; [reflexivity|].
+  split; intros k; unfold kcnt; cbn [c_kl add_kl]; apply kcnt_l_add_other; assumption.
+Qed.
+Lemma dlv_same_lam c ks m : dlv_same c (add_lam c ks m).
+Proof. repeat split. Qed.
 
 (* ---- store transitions do not touch the view ---- *)
 Lemma step_key_view s T k tr s' : step_key s T k tr = Some s' -> view_of s' = view_of s.
@@ -162,6 +207,35 @@ Lemma delivered_cm s r T C ks x : delivered s (ECmReply r T C ks x) = true -> In
 Proof.
   unfold delivered. intros H. apply existsb_exists in H. destruct H as [e [H1 H2]].
   apply reply_eqb_cm in H2. subst. auto.
+Qed.
+
+Lemma pw_res_eqb_eq a b : pw_res_eqb a b = true -> a = b.
+Proof.
+  destruct a, b; cbn [pw_res_eqb]; intros H; try discriminate; auto.
+  - apply andb_true_iff in H. destruct H as [H1 H2]. apply N.eqb_eq in H1. apply N.eqb_eq in H2. subst. auto.
+  - apply N.eqb_eq in H. subst. auto.
+Qed.
+Lemma delivered_pw s r T ks x : delivered s (EPwReply r T ks x) = true -> In (EPwReply r T ks x) (s_dlv s).
+Proof.
+  unfold delivered. intros H. apply existsb_exists in H. destruct H as [e [H1 H2]].
+  destruct e; cbn [reply_eqb] in H2; try discriminate.
+  repeat (apply andb_true_iff in H2; destruct H2 as [H2 ?]).
+  apply N.eqb_eq in H2. subst.
+  repeat match goal with
+         | X : (_ =? _) = true |- _ => apply N.eqb_eq in X; subst
+         | X : leqb _ _ = true |- _ => apply leqb_eq in X; subst
+         | X : pw_res_eqb _ _ = true |- _ => apply pw_res_eqb_eq in X; subst
+         end.
+  exact H1.
+Qed.
+Lemma async_cts_In l r T ks : async_cts l r T ks = true ->
+  exists p ttl m secs, In (ECtsReply r T p (StLocked ttl m true secs)) l /\ forall k, In k ks -> In k secs.
+Proof.
+  unfold async_cts. intros H. apply existsb_exists in H. destruct H as [e [H1 H2]].
+  destruct e; try discriminate. destruct st; try discriminate. destruct async; try discriminate.
+  apply andb_true_iff in H2. destruct H2 as [H2 H3]. apply andb_true_iff in H2. destruct H2 as [H2 H4].
+  apply N.eqb_eq in H2. apply N.eqb_eq in H4. subst.
+  exists p, ttl, m, secs. split; [exact H1 | exact (subset_In _ _ H3)].
 Qed.
 
 Lemma fold_max_ge l : forall a, a <= fold_left N.max l a /\ forall x, In x l -> x <= fold_left N.max l a.
